@@ -31,6 +31,7 @@ type Cfg struct {
 	HTTP        bool    `json:"http"`         // allow http documents
 	RootElems   bool    `json:"rootelems"`    // root has parameters/responses sections
 	CaseTwins   bool    `json:"casetwins"`    // some definitions get a twin whose name differs in letter case only
+	ArrayDoc    bool    `json:"arraydoc"`     // one extra document whose top-level value is an array of schemas (referenced as list.json#/0 …)
 	FragIDs     bool    `json:"fragids"`      // some schemas carry a fragment-only id ("#anchor7"): re-scoping is the identity, so the id-agnostic model stays exact
 	IDScopes    bool    `json:"idscopes"`     // self-contained sub-schemas that declare an id (from a tiny pool) and refer to their own local definitions (C18 only: the model ignores id)
 	SelfIDs     bool    `json:"selfids"`      // bare-schema documents carry their own URL as id (published schemas)
@@ -54,6 +55,7 @@ func DrawCfg(r *sim.RNG) Cfg {
 		RootElems: r.Bool(0.8),
 		CaseTwins: r.Bool(0.2),
 		FragIDs:   r.Bool(0.15),
+		ArrayDoc:  r.Bool(0.15),
 	}
 	all := []string{"properties", "items", "itemsArr", "allOf", "anyOf", "oneOf", "not", "additionalProperties", "patternProperties", "dependencies", "additionalItems", "definitions"}
 	if r.Bool(0.5) {
@@ -397,6 +399,7 @@ func (g *gen) pathItem(doc string, ord int) map[string]interface{} {
 }
 
 type skel struct {
+	array                      int // >0: the document is an array of that many schemas
 	bare                       bool
 	defs, params, resps, paths []string
 }
@@ -413,6 +416,9 @@ func Generate(r *sim.RNG, cfg Cfg) *model.World {
 	for i := 0; i < cfg.NDocs && i < len(perm); i++ {
 		urls = append(urls, pool[perm[i]])
 	}
+	if cfg.ArrayDoc {
+		urls = append(urls, "file://"+Prefix+"/api/list.json")
+	}
 	sk := map[string]*skel{}
 	var all []*target
 	add := func(k model.Kind, u, ptr string) {
@@ -420,6 +426,14 @@ func Generate(r *sim.RNG, cfg Cfg) *model.World {
 	}
 	for di, u := range urls {
 		s := &skel{}
+		if cfg.ArrayDoc && u == "file://"+Prefix+"/api/list.json" {
+			s.array = 1 + r.Intn(3)
+			for i := 0; i < s.array; i++ {
+				add(model.KSchema, u, fmt.Sprintf("/%d", i))
+			}
+			sk[u] = s
+			continue
+		}
 		if di > 0 && cfg.WholeDoc && r.Intn(3) == 0 {
 			s.bare = true
 			add(model.KSchema, u, "")
@@ -502,6 +516,18 @@ func Generate(r *sim.RNG, cfg Cfg) *model.World {
 	w := &model.World{Docs: map[string]interface{}{}, Root: RootURL}
 	for _, u := range urls {
 		s := sk[u]
+		if s.array > 0 {
+			arr := []interface{}{}
+			for i := 0; i < s.array; i++ {
+				e := g.schema(u, 0, find(model.KSchema, u, fmt.Sprintf("/%d", i)), true)
+				if _, isRef := e["$ref"]; isRef {
+					e = g.leaf()
+				}
+				arr = append(arr, e)
+			}
+			w.Docs[u] = arr
+			continue
+		}
 		if s.bare {
 			doc := g.schema(u, 0, find(model.KSchema, u, ""), true)
 			if _, isRef := doc["$ref"]; isRef || len(doc) == 0 {
@@ -566,7 +592,11 @@ func (g *gen) addNested(w *model.World) {
 	var nested []pos
 	for _, u := range sortedKeys(w.Docs) {
 		root := model.Node{URL: u, Ptr: "", Val: w.Docs[u], Kind: model.KRoot}
-		if _, isSwagger := w.Docs[u].(map[string]interface{})["swagger"]; !isSwagger {
+		dm, isMap := w.Docs[u].(map[string]interface{})
+		if !isMap {
+			continue
+		}
+		if _, isSwagger := dm["swagger"]; !isSwagger {
 			root.Kind = model.KSchema
 		}
 		var rec func(n model.Node, depth int)
@@ -624,7 +654,7 @@ func isSchemaPtr(p string) bool {
 // ID kinds (DESIGN.md C04).
 var idSafe = []string{"http://ids.test/schemas/s%d.json", "other%d.json", "#frag%d", "file:///w/ids/abs%d.json", "../up/", "/abs/dir/", "http://ids.test/dir%d/",
 	"http://Ids.Test/Upper%d.json", "http://ids.test:80/port%d.json", "HTTP://ids.test/scheme%d.json"}
-var idAll = append(append([]string{}, idSafe...), "sub/", "deeper/dir/")
+var idAll = append(append([]string{}, idSafe...), "sub/", "deeper/dir/", "sub/f%d.json")
 
 func (g *gen) addIDs(w *model.World) {
 	pool := idSafe
